@@ -106,9 +106,11 @@ def covering_behaviours(g, rng: random.Random, budget: int | None):
             nxt = cand[rng.randrange(len(cand))]
             path.append(nxt)
             nid = nxt
+        fresh = []
         for a, b in zip(path, path[1:]):
+            fresh.append((a, b) in uncovered)
             uncovered.discard((a, b))
-        behs.append(path)
+        behs.append((path, fresh))
     return behs, len(set(edges)), len(set(edges)) - len(uncovered)
 
 
@@ -161,13 +163,22 @@ def run_chunk(task: dict):
     res = {"findings": [], "drift": [], "machinery": [], "n_beh": 0, "n_steps": 0, "n_events": 0, "nontrivial": [], "samples": [],
            "acts": {}, "stops": {}, "tlc": {"distinct": 0, "generated": 0, "wall_s": 0.0, "runs": 0}, "label": task["label"], "strict_steps": 0}
     traces, runs = [], {}
-    for bi, beh in enumerate(task["behaviours"]):
+    todo = list(task["behaviours"])
+    bi = -1
+    while bi + 1 < len(todo):
+        bi += 1
+        beh = todo[bi]
         names, contents = beh["scheme"]
         w = _world(scratch, names, contents, task.get("large", 200_000))
         ex = GitExec(w) if task["executor"] == "git" else DulExec(w)
         run = execute(w, ex, beh["steps"], beh["opts"])
         tid = bi + 1
         runs[tid] = (beh, run)
+        st = run["stop"]
+        if st is not None and task["label"].startswith("R:pairs") and st["act"] == "Switch" and st["at"] + 1 < len(beh["steps"]):
+            # the switch t_k -> t_k+1 failed: carry on with the rest of the chain from a fresh checkout of t_k+1
+            rest = beh["steps"][st["at"]:]
+            todo.append({"steps": [dict(rest[0], act="Checkout")] + rest[1:], "scheme": beh["scheme"], "opts": beh["opts"]})
         res["n_beh"] += 1
         res["n_steps"] += len(beh["steps"])
         res["n_events"] += len(run["events"])
@@ -355,8 +366,11 @@ def graph_behaviours(ctx, cfg: str, name: str, budget):
     shutil.rmtree(d, ignore_errors=True)
     paths, nedges, ncov = covering_behaviours(g, ctx.rng, budget)
     behs = []
-    for path in paths:
-        behs.append([step_of(g.nodes[nid]) for nid in path[1:]])
+    for path, fresh in paths:
+        steps = [step_of(g.nodes[nid]) for nid in path[1:]]
+        for st, fr in zip(steps, fresh):
+            st["obs"] = fr
+        behs.append(steps)
     ctx.log(f"{name}: {len(g.nodes)} states, {nedges} transitions, {len(behs)} behaviours cover {ncov}")
     ctx.cov.setdefault("graph_replay", []).append({"config": cfg, "states": len(g.nodes), "transitions": nedges, "behaviours": len(behs), "transitions_covered": ncov})
     return behs
@@ -552,10 +566,23 @@ def random_behaviour(rng: random.Random, length: int):
 
 
 # --------------------------------------------------------------------------- orchestration
-def chunked(behs, label, executor, scratch, size, large=200_000):
-    tasks = []
-    for k in range(0, len(behs), size):
-        tasks.append({"label": label, "executor": executor, "scratch": scratch, "behaviours": behs[k:k + size], "large": large})
+def chunked(behs, label, executor, scratch, nchunks, large=200_000):
+    """Split into about nchunks chunks of similar cost (cost ~ steps that are observed, plus a little for the others)."""
+    if not behs:
+        return []
+    def cost(b):
+        return sum(3 if s.get("obs", True) else 1 for s in b["steps"])
+    total = sum(cost(b) for b in behs)
+    per = max(1, total // max(1, nchunks))
+    tasks, cur, acc = [], [], 0
+    for b in behs:
+        cur.append(b)
+        acc += cost(b)
+        if acc >= per:
+            tasks.append({"label": label, "executor": executor, "scratch": scratch, "behaviours": cur, "large": large, "cost": acc})
+            cur, acc = [], 0
+    if cur:
+        tasks.append({"label": label, "executor": executor, "scratch": scratch, "behaviours": cur, "large": large, "cost": acc})
     return tasks
 
 
@@ -602,26 +629,29 @@ def absorb(ctx, results, seen_drift):
 
 
 def run(ctx):
+    from concurrent.futures import ThreadPoolExecutor
     nproc = min(14, os.cpu_count() or 4)
-    # ---- 1. the model
-    for cfg, expect in (("WorkTreeStatus_neg_modeblind.cfg", "StageAllComplete"), ("WorkTreeStatus_neg_linkblind.cfg", "RoundTrip")):
-        r = tlc.run(SPEC, cfg, workers=2, timeout=300)
+    # ---- 1. the model (the TLC runs go side by side)
+    tp = ThreadPoolExecutor(4)
+    negs = [(cfg, expect, tp.submit(tlc.run, SPEC, cfg, workers=2, timeout=300))
+            for cfg, expect in (("WorkTreeStatus_neg_modeblind.cfg", "StageAllComplete"), ("WorkTreeStatus_neg_linkblind.cfg", "RoundTrip"))]
+    f_pairs = tp.submit(pair_trees, ctx, ctx.pick("WorkTreeStatus_pairsq.cfg", "WorkTreeStatus_pairs.cfg"), "pairs (all ordered pairs of trees; Checkout, Switch, StageAll)")
+    f_e4 = None if ctx.quick else tp.submit(tlc.run, SPEC, "WorkTreeStatus_edits4.cfg", workers=6, timeout=2400)
+    edit_behs = graph_behaviours(ctx, ctx.pick("WorkTreeStatus_edits2.cfg", "WorkTreeStatus_edits3.cfg"),
+                                 ctx.pick("edits2 (3 trees, every action, 2 steps after checkout)", "edits3 (3 trees, every action, 3 steps after checkout)"),
+                                 ctx.pick(None, 90000))
+    trees, _ = f_pairs.result()
+    for cfg, expect, fut in negs:
+        r = fut.result()
         ctx.add_tlc(f"{cfg} (negative control, expects {expect})", r, require_ok=False)
         if expect not in r.violated:
             raise MachineryError(f"negative control {cfg} did not find {expect}: {r.violated}\n{r.output[-1500:]}")
-    trees, _ = pair_trees(ctx, ctx.pick("WorkTreeStatus_pairsq.cfg", "WorkTreeStatus_pairs.cfg"), "pairs (all ordered pairs of trees; Checkout, Switch, StageAll)")
-    edit_behs = graph_behaviours(ctx, ctx.pick("WorkTreeStatus_edits2.cfg", "WorkTreeStatus_edits3.cfg"),
-                                 ctx.pick("edits2 (3 trees, every action, 2 steps after checkout)", "edits3 (3 trees, every action, 3 steps after checkout)"),
-                                 ctx.pick(None, None))
-    if not ctx.quick:
-        r = tlc.run(SPEC, "WorkTreeStatus_edits4.cfg", workers=8, timeout=1500)
-        ctx.add_tlc("edits4 (4 trees, every action, 4 steps after checkout; model level only)", r)
     # ---- behaviours
     n = len(trees)
     all_pairs = [(a, b) for a in range(n) for b in range(n) if a != b]
     ctx.rng.shuffle(all_pairs)
     if ctx.quick:
-        all_pairs = all_pairs[:4500]
+        all_pairs = all_pairs[:3600]
     pair_behs = pair_chains(trees, all_pairs, 30)
     ctx.cov["pairs"] = {"trees": n, "ordered_pairs_total": n * (n - 1), "ordered_pairs_replayed": len(all_pairs), "chains": len(pair_behs)}
     # round trip of every tree by every checkout method: Checkout(t); StageAll
@@ -629,32 +659,35 @@ def run(ctx):
     for t in trees:
         rt_behs.append([{"act": "Checkout", "tree": t, "exp": clean_exp(t)}, {"act": "StageAll", "exp": clean_exp(t)}])
     rnd = random.Random(ctx.seed * 7919 + 18)
-    rand_behs = [random_behaviour(rnd, rnd.randint(4, ctx.pick(10, 14))) for _ in range(ctx.pick(500, 12000))]
+    rand_behs = [random_behaviour(rnd, rnd.randint(4, ctx.pick(10, 14))) for _ in range(ctx.pick(320, 9000))]
     scratch = ctx.scratch
     tasks = []
-    # 0: the specification against git, dulwich not involved
-    sample0 = edit_behs[::ctx.pick(9, 12)] + pair_behs[::ctx.pick(12, 10)] + rand_behs[::ctx.pick(8, 12)]
-    tasks += chunked(with_schemes(sample0, git_opts, SCHEMES), "0:spec-vs-git", "git", scratch, 60)
+    # 0: the specification against git, dulwich not involved (every step observed)
+    sample0 = [[dict(s, obs=True) for s in b] for b in edit_behs[::ctx.pick(14, 40)] + pair_behs[::ctx.pick(16, 10)] + rand_behs[::ctx.pick(8, 12)]]
+    tasks += chunked(with_schemes(sample0, git_opts, SCHEMES), "0:spec-vs-git", "git", scratch, ctx.pick(4, 14))
     git_every = not ctx.quick
-    tasks += chunked(with_schemes(edit_behs, lambda k: pick_opts(k, git_every=git_every), SCHEMES), "R:edits", "dulwich", scratch, 150)
-    tasks += chunked(with_schemes(pair_behs, lambda k: pick_opts(k, git_every=git_every, normal=False), SCHEMES), "R:pairs", "dulwich", scratch, 12)
+    tasks += chunked(with_schemes(edit_behs, lambda k: pick_opts(k, git_every=True), SCHEMES), "R:edits", "dulwich", scratch, ctx.pick(14, 56))
+    tasks += chunked(with_schemes(pair_behs, lambda k: pick_opts(k, git_every=git_every, normal=False), SCHEMES), "R:pairs", "dulwich", scratch, ctx.pick(8, 28))
     rt = []
     for k, steps in enumerate(rt_behs):
         for m, how in enumerate(CHECKOUT_HOW):
             if ctx.quick and (k + m) % 2:
                 continue
             rt.append({"steps": steps, "scheme": SCHEMES[(k + m) % len(SCHEMES)], "opts": dict(pick_opts(k), checkout=how)})
-    tasks += chunked(rt, "R:roundtrip", "dulwich", scratch, 120)
-    tasks += chunked(with_schemes(rand_behs, lambda k: pick_opts(k, git_every=True), SCHEMES), "T:random", "dulwich", scratch, 60)
+    tasks += chunked(rt, "R:roundtrip", "dulwich", scratch, ctx.pick(2, 4))
+    tasks += chunked(with_schemes(rand_behs, lambda k: pick_opts(k, git_every=True), SCHEMES), "T:random", "dulwich", scratch, ctx.pick(8, 42))
     if not ctx.quick:
-        big = with_schemes(rand_behs[:300], lambda k: pick_opts(k), [("plain", "binary"), ("nonutf8", "binary")])
-        tasks += chunked(big, "T:large-files", "dulwich", scratch, 20, large=6_000_000)
+        big = with_schemes(rand_behs[:240], lambda k: pick_opts(k), [("plain", "binary"), ("nonutf8", "binary")])
+        tasks += chunked(big, "T:large-files", "dulwich", scratch, 8, large=6_000_000)
     # longest first
-    tasks.sort(key=lambda t: -sum(len(b["steps"]) for b in t["behaviours"]))
+    tasks.sort(key=lambda t: -t["cost"])
     ctx.log(f"{len(tasks)} chunks on {nproc} processes: edits={len(edit_behs)} pair-chains={len(pair_behs)} roundtrip={len(rt)} random={len(rand_behs)} spec-vs-git={len(sample0)}")
     mp = multiprocessing.get_context("fork")
     with mp.Pool(nproc) as pool:
         results = pool.map(run_chunk, tasks, chunksize=1)
+    if f_e4 is not None:
+        ctx.add_tlc("edits4 (4 trees, every action, 4 steps after checkout; model level only)", f_e4.result())
+    tp.shutdown()
     absorb(ctx, results, set())
     ctx.cov["rule"] = ("an execution = one behaviour (checkout, then edits / index operations / switches) carried out on a real repository; distinct = distinct "
                        "(naming and content scheme, entry-point variants, action sequence with arguments); all are non-trivial (each performs at least a checkout and one status call "
